@@ -15,7 +15,7 @@ comment, a `_partial` theorem and a kernel-checked witness:
   F1  `use_xref_streams`: the trailer dictionary has neither /Encrypt nor /ID
   F2  strings under the dictionary keys ID, O, U, P, Perms, Encrypt, Length, Filter, DecodeParms
       are written in clear but decrypted by the reader
-  F3  a stream without /Filter gets `/Filter /Crypt`, which the reader cannot decode
+  F3  (repaired) a stream without /Filter used to get `/Filter /Crypt`, which the reader cannot decode
 "Any other password is refused" is not a theorem (it is a statement about hash collisions);
 the exact acceptance condition is Algorithm 6 (`C23_unlock_user_is_alg6`).
 -/
@@ -137,31 +137,107 @@ theorem C05_witness_skipped_key :
   · simp [encryptObj, encryptObj.encEntries, decryptObj, decryptObj.decEntries, skipKey]
     decide
 
-/-! ## Streams
+/-! ## Streams -/
 
-FULL: ∀ s, shouldEncryptStream em s → readStm cfg enc dec em s = some s   (classic trailer)
--/
+theorem removeKey_setKey (k : String) (v : Obj) : ∀ d, lookup k d = none → removeKey k (setKey k v d) = d
+  | [], _ => by simp [setKey, removeKey]
+  | (k', v') :: r, h => by
+    simp only [lookup] at h
+    by_cases hk : k = k'
+    · simp [hk] at h
+    · simp only [hk, if_false] at h
+      simp [setKey, removeKey, hk, removeKey_setKey k v r h]
 
-/-- A stream whose `/Filter` is a single name other than Crypt (what the writer produces with
-`compress_streams`) and that has no `/StmF` entry is read back exactly. -/
-theorem C05_stream_roundtrip_partial (enc dec : Bytes → Bytes) (hc : ∀ b, dec (enc b) = b)
-    (em : Bool) (s : Stm) (n : String) (hf : lookup "Filter" s.dict = some (.name n)) (hn : n ≠ "Crypt")
-    (hs : lookup "StmF" s.dict = none) (h : shouldEncryptStream em s = true) :
-    decryptStm dec (encryptStm enc em s) = s ∧ streamDecodable (encryptStm enc em s) = true := by
-  have hn' : ¬ "Crypt" = n := fun e => hn e.symm
-  unfold encryptStm
-  simp only [h, Bool.not_true, Bool.false_eq_true, if_false, hf]
-  simp [decryptStm, hs, hc, streamDecodable, hf, filterNames, hn, hn']
+theorem lookup_setKey (k : String) (v : Obj) : ∀ d, lookup k (setKey k v d) = some v
+  | [] => by simp [setKey, lookup]
+  | (k', v') :: r => by
+    by_cases hk : k = k'
+    · simp [setKey, lookup, hk]
+    · simp [setKey, lookup, hk, lookup_setKey k v r]
 
-example : shouldEncryptStream true (contentStream ⟨false, false, true⟩) = true := by decide
+theorem setKey_setKey_back (k : String) (v w : Obj) : ∀ d, lookup k d = some w → setKey k w (setKey k v d) = d
+  | [], h => by simp [lookup] at h
+  | (k', v') :: r, h => by
+    simp only [lookup] at h
+    by_cases hk : k = k'
+    · simp only [hk, if_true, Option.some.injEq] at h
+      simp [setKey, hk, h]
+    · simp only [hk, if_false] at h
+      simp [setKey, hk, setKey_setKey_back k v w r h]
 
-/-- F3 witness: the content stream the writer makes with `compress_streams = false` (no
-/Filter) is written with `/Filter /Crypt` and cannot be decoded by the reader. -/
-theorem C05_witness_unfiltered_stream (enc dec : Bytes → Bytes) :
-    readStm ⟨false, false, false⟩ enc dec true (contentStream ⟨false, false, false⟩) = none := by
-  simp [readStm, contentStream, encryptStm, shouldEncryptStream, lookup, hasCrypt, setKey,
+theorem filter_notCrypt (l : List Obj) (h : hasCrypt (some (.arr l)) = false) :
+    l.filter notCryptName = l := by
+  induction l with
+  | nil => rfl
+  | cons o r ih =>
+    simp only [hasCrypt, List.any_cons, Bool.or_eq_false_iff] at h ih
+    have ho : notCryptName o = true := by
+      cases o <;> simp_all [notCryptName]
+    simp [List.filter, ho, ih h.2]
+
+/-- what `write_object` puts into the file for a stream that does not name the Crypt filter:
+the dictionary as authored, the data encrypted -/
+theorem writeStm_eq (enc : Bytes → Bytes) (em : Bool) (s : Stm)
+    (hc : hasCrypt (lookup "Filter" s.dict) = false) (he : lookup "Filter" s.dict ≠ some (.arr []))
+    (h : shouldEncryptStream em s = true) : writeStm enc em s = ⟨s.dict, enc s.data⟩ := by
+  unfold writeStm encryptStm
+  simp only [hc, Bool.false_eq_true, if_false, h, Bool.not_true]
+  cases hf : lookup "Filter" s.dict with
+  | none =>
+    simp only [stripCrypt, lookup_setKey, if_true]
+    rw [removeKey_setKey _ _ _ hf]
+  | some f =>
+    cases f with
+    | name n =>
+      have hn : ¬ n = "Crypt" := by simpa [hasCrypt, hf] using hc
+      simp [stripCrypt, hf, hn]
+    | arr l =>
+      have hl : l ≠ [] := fun e => he (by rw [hf, e])
+      have ha := filter_notCrypt l (by rw [hf] at hc; exact hc)
+      simp only [stripCrypt, lookup_setKey, List.filter_append, ha]
+      have : (List.filter notCryptName [Obj.name "Crypt"]) = [] := by simp [List.filter, notCryptName]
+      rw [this, List.append_nil]
+      have hne : l.isEmpty = false := by cases l <;> simp_all
+      simp only [hne, Bool.false_eq_true, if_false]
+      rw [setKey_setKey_back _ _ _ _ hf]
+    | null => simp [stripCrypt, hf]
+    | bool _ => simp [stripCrypt, hf]
+    | num _ => simp [stripCrypt, hf]
+    | str _ => simp [stripCrypt, hf]
+    | dict _ => simp [stripCrypt, hf]
+    | ref _ _ => simp [stripCrypt, hf]
+
+/-- Every stream that does not itself name the Crypt filter (and whose dictionary has no /StmF
+entry, no empty /Filter array) is read back exactly — dictionary and data — and stays as
+decodable as it was: with or without /Filter, name or array. -/
+theorem C05_stream_roundtrip (enc dec : Bytes → Bytes) (hcd : ∀ b, dec (enc b) = b)
+    (em : Bool) (s : Stm) (hc : hasCrypt (lookup "Filter" s.dict) = false)
+    (he : lookup "Filter" s.dict ≠ some (.arr [])) (hs : lookup "StmF" s.dict = none)
+    (h : shouldEncryptStream em s = true) :
+    decryptStm dec (writeStm enc em s) = s ∧ streamDecodable (writeStm enc em s) = streamDecodable s := by
+  rw [writeStm_eq enc em s hc he h]
+  simp [decryptStm, hs, hcd, streamDecodable]
+
+example : shouldEncryptStream true (contentStream ⟨false, false, false⟩) = true ∧
+    hasCrypt (lookup "Filter" (contentStream ⟨false, false, false⟩).dict) = false := by decide
+
+/-- Regression statement (the writer before the repair, `readStmOld`): the content stream made
+with `compress_streams = false` (no /Filter) went out with `/Filter /Crypt` and could not be
+decoded by the reader. -/
+theorem C05_witness_unfiltered_stream_old (enc dec : Bytes → Bytes) :
+    readStmOld ⟨false, false, false⟩ enc dec true (contentStream ⟨false, false, false⟩) = none := by
+  simp [readStmOld, contentStream, encryptStm, shouldEncryptStream, lookup, hasCrypt, setKey,
     detectEncryption, trailerKeys, decryptStm, streamDecodable, filterNames]
 
+/-- … and now it reads back. -/
+theorem C05_unfiltered_stream_reads_back (enc dec : Bytes → Bytes) (hcd : ∀ b, dec (enc b) = b) :
+    readStm ⟨false, false, false⟩ enc dec true (contentStream ⟨false, false, false⟩) =
+      some (contentStream ⟨false, false, false⟩) := by
+  have h := C05_stream_roundtrip enc dec hcd true (contentStream ⟨false, false, false⟩) (by decide)
+    (by simp [contentStream, lookup]) (by decide) (by decide)
+  have hd : detectEncryption (trailerKeys ⟨false, false, false⟩ true) = true := by decide
+  simp only [readStm, hd, if_true, h.1]
+  simp [streamDecodable, contentStream, lookup, filterNames]
 
 /-! ## The per-object ciphers (Algorithm 1 / 1.A) -/
 
